@@ -257,6 +257,16 @@ func c01Gen(r *rand.Rand, tier string) any {
 					e = direct[0]
 				}
 				op := opSpec{Op: "bump-req", Item: fmt.Sprint(e), N: shadow.Exts[e].Sel + 1 + r.IntN(len(extVersions)-1)}
+				if sel := shadow.extSelected(); r.IntN(3) == 0 {
+					// ... to exactly the version the build list selects already (another project
+					// demands it): the lower version, and what only it required, drop out
+					for _, d := range direct {
+						if sel[d] > shadow.Exts[d].Sel {
+							op = opSpec{Op: "bump-req", Item: fmt.Sprint(d), N: sel[d]}
+							break
+						}
+					}
+				}
 				shadow.applySpecEdit(&op)
 				if r.IntN(4) == 0 {
 					// the version the requirement moved to cannot be fetched when the project is
